@@ -8,7 +8,7 @@
 (***************************************************************************)
 EXTENDS Shapes
 
-ShapesAll == {"absent", "null", "wrongscalar", "emptylist", "listnull", "map", "deep"}
+ShapesAll == {"absent", "null", "wrongscalar", "emptylist", "listnull", "map", "deep", "twonulls", "nullthenempty"}
 
 DocsDef == [
   chartyaml |-> <<
@@ -53,7 +53,7 @@ DocsDef == [
     <<"hooks">>, <<"hooks", "0">>, <<"hooks", "0", "events">>, <<"version">>, <<"namespace">> >>
 ]
 
-AlphabetsDef == [manifest |-> 16, strvals |-> 18, ignore |-> 16]
+AlphabetsDef == [manifest |-> 16, strvals |-> 18, ignore |-> 16, recursion |-> 10]
 
 DamagesDef == <<"intact", "notbase64", "badgzip", "truncated", "notjson", "jsonlist", "wrongtype", "jsonnull",
                 "emptyobject", "nullinfo", "nullchart">>
